@@ -191,7 +191,10 @@ func (d *disconnectHandler) handleGracePeriodExpired() {
 	defer d.mu.Unlock()
 
 	if d.election.connectionMonitor != nil {
-		if d.election.connectionMonitor.Status() != ConnectionStatusDisconnected {
+		// Only a reconnect spares the leader; a connection that was closed
+		// meanwhile is as lost as a disconnected one.
+		status := d.election.connectionMonitor.Status()
+		if status == ConnectionStatusConnected || status == ConnectionStatusReconnected {
 			// Reconnected, don't demote
 			log := d.election.getLogger()
 			log.Info("connection_reconnected_before_grace_period",
